@@ -882,3 +882,30 @@ def rule_if_eot(cx, rep, port='py'):
         else:
             rep.undecided(key, q.node if q.node is not None else gr, 'get_record returns None on a path decided by {} rather than by the source reporting its end'.format(attrs))
     rep.require_count('cursor-backed iterators', n, 2, (p.files['rbql_engine'], 0))
+
+
+def rule_if_errclass(cx, rep, port='js'):
+    """javascript: errors are classified ("query parsing", "query execution", "IO handling", ...) by the *name* of their class.  The CSV
+    layer defines its own class with the same name as the engine's (RbqlIOHandlingError in rbql_csv.js and in rbql.js): an `instanceof`
+    test against the engine's class is false for the other module's errors, which would then be reported as "unexpected"."""
+    p = cx.js
+    mod = cx.engine_mod('js')
+    fd = p.func(mod, 'exception_to_error_info', required=False)
+    if fd is None:
+        raise Undecided('anchor vanished: exception_to_error_info', (p.files[mod], 0))
+    defined = {}
+    for mname in p.modules:
+        for c in p.classes_in(mname):
+            if c.name.endswith('Error'):
+                defined.setdefault(c.name, set()).add(mname)
+    dup = {n for n, ms_ in defined.items() if len(ms_) > 1}
+    e = fd.args.args[0].arg if fd.args.args else None
+    inst = [c for c in ast.walk(fd) if isinstance(c, ast.Call) and dotted(c.func) == 'isinstance' and len(c.args) == 2 and is_name(c.args[0], e)]
+    named = [x for x in ast.walk(fd) if isinstance(x, ast.Name) and isinstance(x.ctx, ast.Load) and x.id in dup]
+    by_name = [x for x in ast.walk(fd) if isinstance(x, ast.Attribute) and x.attr == 'name']
+    if inst and named:
+        rep.violated('error classification', inst[0], 'errors are classified with instanceof against {}, but {} is also defined in {}: an error raised there as its own class of that name is reported as "unexpected" instead of its kind'.format(named[0].id, named[0].id, ' and '.join(sorted(defined[named[0].id] - {mod}))))
+    elif by_name and not inst:
+        rep.holds('error classification', fd, 'errors are classified by the name of their class ({} class name(s) are defined in more than one module)'.format(len(dup)))
+    else:
+        rep.undecided('error classification', fd, 'how errors are classified was not recognised')
